@@ -39,7 +39,14 @@ where
 
   fn actual_subscribe(self, observer: O) -> Self::Unsub {
     let Self { scheduler, dur, delay } = self;
-    scheduler.schedule(RepeatTask::new(dur, interval_task, observer), delay)
+    let task = if delay.is_some() {
+      // `interval_at`: the first value is due at the given instant, not one
+      // more period after the subscription.
+      RepeatTask::new_immediate(dur, interval_task, observer)
+    } else {
+      RepeatTask::new(dur, interval_task, observer)
+    };
+    scheduler.schedule(task, delay)
   }
 }
 
